@@ -1,10 +1,11 @@
 (* C12 - GroupBy aggregates equal a reference partition-and-fold.
-   Property theorems only; each is closed by [exact] of a lemma from Proofs/C12.v and
+   Property theorems only; each is closed by [exact] of a lemma from Proofs/C12.v or
+   Proofs/C12_Session.v (the _refuted witness and the Examples by vm_compute) and
    followed by Print Assumptions.  K is the type of non-integer, non-null cells (text,
    floats ...) with a boolean equality that decides Leibniz equality; the theorems hold
    for every such K. *)
 From Coq Require Import List ZArith QArith Bool Permutation.
-From Orso Require Import Model.C12 Proofs.C12.
+From Orso Require Import Model.C12 Proofs.C12 Proofs.C12_Session.
 Import ListNotations.
 Close Scope Q_scope.
 Close Scope Z_scope.
@@ -196,6 +197,79 @@ Theorem C12_label_text_injective :
 Proof. exact render_agg_inj. Qed.
 Print Assumptions C12_label_text_injective.
 
+(* ---------- sessions: the same objects used again, the frame mutated in between ---------- *)
+(* A heap holds frames (list- or generator-backed) and GroupBy objects; a GroupBy refers to its
+   frame and carries self._group_keys from earlier calls.  Operations: append a row, materialise,
+   take a GroupBy, aggregate / groups on an EXISTING GroupBy.  At EVERY state h of the heap -
+   in particular every state a session reaches from any initial frames by any operations -
+   aggregate on any GroupBy object gb returns exactly the partition-and-fold of the rows its
+   frame f holds at that moment: nothing the object or the frame went through before (earlier
+   calls with the same or other requests, rows appended since, a generator already spent,
+   other GroupBy objects over the same frame) changes the answer; the frame is left as a fresh
+   aggregate leaves it. *)
+Theorem C12_session_aggregate_depends_only_on_current_rows :
+  forall (K : Type) (K_eqb : K -> K -> bool),
+  (forall a b : K, K_eqb a b = true <-> a = b) ->
+  forall (h : heap K) (g : nat) (reqs : list (func * name)) (gb : gbobj K) (f : frame K),
+  reqs <> [] ->
+  nth_error (hgbs h) g = Some gb -> nth_error (hframes h) (gframe gb) = Some f ->
+  snd (step K K_eqb h (OAggregate g reqs)) =
+    OutRes (spec_aggregate K K_eqb (fnames f) (frows f) (gcols gb) reqs)
+  /\ nth_error (hframes (fst (step K K_eqb h (OAggregate g reqs)))) (gframe gb) =
+     Some (snd (aggregate K K_eqb f (gcols gb) reqs)).
+Proof. exact session_aggregate. Qed.
+Print Assumptions C12_session_aggregate_depends_only_on_current_rows.
+
+(* The outputs of a session are the outputs of its steps, each taken at the state the
+   preceding operations lead to - so the theorems here speak of every call of every session. *)
+Theorem C12_session_outputs_stepwise :
+  forall (K : Type) (K_eqb : K -> K -> bool) (ops : list (op K)) (h : heap K) (o : op K),
+  run K K_eqb h (ops ++ [o]) =
+  (fst (step K K_eqb (fst (run K K_eqb h ops)) o),
+   snd (run K K_eqb h ops) ++ [snd (step K K_eqb (fst (run K K_eqb h ops)) o)]).
+Proof. exact run_snoc. Qed.
+Print Assumptions C12_session_outputs_stepwise.
+
+(* groups() on an existing GroupBy object, at every state of the heap and for list-backed and
+   generator-backed frames alike (the restriction to list-backed sessions and the refutation of
+   the full statement went with the fix of F-C12-5): it is groups() of the rows the frame holds
+   now (C12_groups: one row per distinct key), and the frame is left as a fresh groups() leaves it. *)
+Theorem C12_session_groups_depends_only_on_current_rows :
+  forall (K : Type) (K_eqb : K -> K -> bool)
+         (h : heap K) (g : nat) (gb : gbobj K) (f : frame K),
+  nth_error (hgbs h) g = Some gb -> nth_error (hframes h) (gframe gb) = Some f ->
+  snd (step K K_eqb h (OGroups g)) = OutRes (fst (groups K K_eqb f (gcols gb)))
+  /\ nth_error (hframes (fst (step K K_eqb h (OGroups g)))) (gframe gb) =
+     Some (snd (groups K K_eqb f (gcols gb))).
+Proof. exact session_groups. Qed.
+Print Assumptions C12_session_groups_depends_only_on_current_rows.
+
+(* What a GroupBy object holds after aggregate or groups is the key bookkeeping of that call's
+   pass over the rows it read (unchanged if ValueError was raised before reading): nothing older
+   survives in it. *)
+Theorem C12_session_object_holds_last_pass_only :
+  forall (K : Type) (K_eqb : K -> K -> bool)
+         (h : heap K) (g : nat) (gb : gbobj K) (f : frame K) (o : op K),
+  nth_error (hgbs h) g = Some gb -> nth_error (hframes h) (gframe gb) = Some f ->
+  (o = OGroups g \/ exists reqs, o = OAggregate g reqs) ->
+  nth_error (hgbs (fst (step K K_eqb h o))) g =
+  Some (mkgb (gframe gb) (gcols gb)
+         match group_indices (fnames f) (gcols gb) with
+         | None => gmemo gb
+         | Some gidx => group_keys K K_eqb (fnames f) gidx (frows f)
+         end).
+Proof. exact session_memo_is_last_pass. Qed.
+Print Assumptions C12_session_object_holds_last_pass_only.
+
+(* The methods of a GroupBy object are the functions of its frame, whatever the object holds. *)
+Theorem C12_groupby_object_methods :
+  forall (K : Type) (K_eqb : K -> K -> bool) (memo : gkmemo K) (f : frame K) (keycols : list name)
+         (reqs : list (func * name)),
+  fst (gb_aggregate K K_eqb memo f keycols reqs) = aggregate K K_eqb f keycols reqs /\
+  fst (gb_groups K K_eqb memo f keycols) = groups K K_eqb f keycols.
+Proof. intros. split; [apply gb_aggregate_eq|apply gb_groups_eq]. Qed.
+Print Assumptions C12_groupby_object_methods.
+
 (* ---------- non-vacuity ---------- *)
 (* The hypotheses are satisfiable by a non-trivial value: a 5-row frame keyed on k with the
    hash-colliding keys -1 and -2, a null key, an all-null group and a repeated column;
@@ -225,3 +299,38 @@ Qed.
    correspondence evaluates) decides equality on kc. *)
 Example C12_kc_eqb_decides : forall a b : kc, kc_eqb a b = true <-> a = b.
 Proof. exact kc_eqb_spec. Qed.
+
+(* ... and a session exists in which the same GroupBy object is used twice with the frame
+   appended to in between: the first SUM(v) answers for the rows then present, the second for
+   all rows, a new group included. *)
+Example C12_session_nonvacuous :
+  let names : list name := [[107]; [118]]%N in
+  let frames := [mkframe names [[vi (-1); vi 1]; [vi (-2); vi 2]]%Z false] in
+  let ops := [ogb 0 [[107%N]]; oagg 0 [(SUM, [118%N])]; oapp 0 [vi (-1); vi 100]%Z; oapp 0 [vn; vi 7]%Z;
+              oagg 0 [(SUM, [118%N])]; ogrp 0] in
+  snd (run kc kc_eqb (mkheap frames []) ops) =
+    [OutUnit;
+     OutRes (Ok [[(LAgg SUM [118%N], cv (vi 1)); (LKey [107%N], cv (vi (-1)))];
+                 [(LAgg SUM [118%N], cv (vi 2)); (LKey [107%N], cv (vi (-2)))]]);
+     OutUnit; OutUnit;
+     OutRes (Ok [[(LAgg SUM [118%N], cv (vi 101)); (LKey [107%N], cv (vi (-1)))];
+                 [(LAgg SUM [118%N], cv (vi 2)); (LKey [107%N], cv (vi (-2)))];
+                 [(LAgg SUM [118%N], cv (vi 7)); (LKey [107%N], cv vn)]]);
+     OutRes (Ok [[(LKey [107%N], cv (vi (-1)))]; [(LKey [107%N], cv (vi (-2)))]; [(LKey [107%N], cv vn)]])].
+Proof.
+  cbv zeta. vm_compute. reflexivity.
+Qed.
+
+(* ... and the session that witnessed F-C12-5: a generator-backed frame is scanned by count(),
+   materialised (empty), appended to; groups() of the same GroupBy object lists the key of the
+   one row the frame holds, not the keys the generator has given up. *)
+Example C12_session_after_generator_spent :
+  snd (run kc kc_eqb (mkheap [mkframe [[107%N]; [118%N]] [[vi 1; vi 1]; [vi 2; vi 2]]%Z true] [])
+           [ogb 0 [[107%N]]; oagg 0 [(COUNT, [42%N])]; omat 0; oapp 0 [vi 3; vi 5]%Z; ogrp 0; oagg 0 [(COUNT, [42%N])]]) =
+    [OutUnit;
+     OutRes (Ok [[(LAgg COUNT [42%N], cv (vi 1)); (LKey [107%N], cv (vi 1))];
+                 [(LAgg COUNT [42%N], cv (vi 1)); (LKey [107%N], cv (vi 2))]]);
+     OutCount 0; OutUnit;
+     OutRes (Ok [[(LKey [107%N], cv (vi 3))]]);
+     OutRes (Ok [[(LAgg COUNT [42%N], cv (vi 1)); (LKey [107%N], cv (vi 3))]])].
+Proof. vm_compute. reflexivity. Qed.
